@@ -88,6 +88,11 @@ CycleSetCheck check_cycle_set(const Built<W> &b, const std::vector<double> &w, c
     int cnt = 0;
     for (auto &cyc : cycles) {
         ++cnt;
+#ifdef VH_TOUCH_RESULTS
+        // what a caller does with the result: read each returned descriptor's weight through its own property map.
+        // Under AddressSanitizer a descriptor that points into storage the library already released is reported here.
+        { auto wm = boost::get(boost::edge_weight, b.g); volatile double sink = 0; for (auto &e : cyc) sink = sink + (double) boost::get(wm, e); (void) sink; }
+#endif
         { double lw = 0; for (auto &e : cyc) { auto it = b.by_prop.find(e.get_property()); if (it == b.by_prop.end()) { r.identifiable = false; break; } lw += w[it->second]; } r.listed_weights.push_back(lw); r.listed_total += lw; }
         uint64_t mask = 0; double cw = 0;
         std::vector<int> deg(n, 0);
